@@ -442,10 +442,28 @@ pub fn judge(h: &History, out: &Outcome, stats: &mut JudgeStats) -> Vec<Violatio
                                     }
                                 }
                                 (Some(e), false) => {
-                                    let md = got["contents"]["value"].as_str().unwrap_or("");
-                                    let missing: Vec<&String> = e.lines.iter().filter(|l| !md.split("\n\n").any(|part| part == l.as_str() || part == format!("---\n{l}") || part.ends_with(&format!("\n---\n{l}")))).collect();
-                                    if let Some(m) = missing.first() {
-                                        v.push(Violation { class: "hover_sets_wrong".into(), site: m.split(' ').next().unwrap_or("").trim_matches('*').trim_end_matches(':').to_string(), detail: format!("step {i}: hover at {line}:{ch} shows {md:?}; the analysis gives {m:?}"), step: i });
+                                    // format-agnostic: after each label (First / Follow / Predict / Recovery) the words up to the
+                                    // next label are exactly the token names of the corresponding set
+                                    let md = got["contents"]["value"].as_str().unwrap_or("").to_string();
+                                    let labels = ["First", "Follow", "Predict", "Recovery"];
+                                    let mut bad: Option<String> = None;
+                                    for l in &e.lines {
+                                        let label = labels.iter().find(|x| l.contains(&format!("**{x}:**"))).copied().unwrap_or("");
+                                        let want: std::collections::BTreeSet<String> = l.split(['{', '}']).nth(1).unwrap_or("").split(',').map(|x| x.trim().to_string()).filter(|x| !x.is_empty()).collect();
+                                        let Some(at) = md.rfind(&format!("{label}:")) else {
+                                            bad = Some(format!("{label} (label missing)"));
+                                            break;
+                                        };
+                                        let rest = &md[at + label.len() + 1..];
+                                        let end = labels.iter().filter_map(|x| rest.find(&format!("{x}:"))).min().unwrap_or(rest.len());
+                                        let have: std::collections::BTreeSet<String> = rest[..end].split(|c: char| !(c.is_alphanumeric() || c == '_' || c == 'ɛ')).map(|x| x.to_string()).filter(|x| !x.is_empty() && !labels.contains(&x.as_str())).collect();
+                                        if have != want {
+                                            bad = Some(format!("{label}: shown {have:?}, analysis {want:?}"));
+                                            break;
+                                        }
+                                    }
+                                    if let Some(b) = bad {
+                                        v.push(Violation { class: "hover_sets_wrong".into(), site: b.split([':', ' ']).next().unwrap_or("").to_string(), detail: format!("step {i}: hover at {line}:{ch} shows {md:?}; {b}"), step: i });
                                     } else if got["range"] != e.range {
                                         v.push(Violation { class: "hover_sets_wrong".into(), site: "range".into(), detail: format!("step {i}: hover range {} but the node spans {}", got["range"], e.range), step: i });
                                     }
